@@ -279,6 +279,39 @@ func Mutants(s *Schema, perOp int) []Mutant {
 				return true
 			})
 		}
+		// the in and the out position are checked separately: break one of them, the other one absent or fine
+		add("channel-out-of-scalar", st, []string{"bad_channel"}, func(c *Schema, d *Def) bool {
+			d.Methods = append(d.Methods, Method{Name: "bad_channel", ChanOut: scalarT("string")})
+			return true
+		})
+		if msgName != "" {
+			add("channel-out-of-scalar-in-of-message", st, []string{"bad_channel"}, func(c *Schema, d *Def) bool {
+				d.Methods = append(d.Methods, Method{Name: "bad_channel", ChanIn: &Type{Kind: TRef, Name: msgName}, ChanOut: scalarT("int32")})
+				return true
+			})
+			add("channel-in-of-scalar-out-of-message", st, []string{"bad_channel"}, func(c *Schema, d *Def) bool {
+				d.Methods = append(d.Methods, Method{Name: "bad_channel", ChanIn: scalarT("bool"), ChanOut: &Type{Kind: TRef, Name: msgName}})
+				return true
+			})
+			add("channel-out-of-list", st, []string{"bad_channel"}, func(c *Schema, d *Def) bool {
+				d.Methods = append(d.Methods, Method{Name: "bad_channel", ChanIn: &Type{Kind: TRef, Name: msgName}, ChanOut: &Type{Kind: TList, Elem: &Type{Kind: TRef, Name: msgName}}})
+				return true
+			})
+		}
+		if enumName != "" {
+			add("channel-out-of-enum", st, []string{"bad_channel", enumName}, func(c *Schema, d *Def) bool {
+				m := Method{Name: "bad_channel", ChanOut: &Type{Kind: TRef, Name: enumName}}
+				if msgName != "" {
+					m.ChanIn = &Type{Kind: TRef, Name: msgName}
+				}
+				d.Methods = append(d.Methods, m)
+				return true
+			})
+			add("channel-in-of-enum", st, []string{"bad_channel", enumName}, func(c *Schema, d *Def) bool {
+				d.Methods = append(d.Methods, Method{Name: "bad_channel", ChanIn: &Type{Kind: TRef, Name: enumName}})
+				return true
+			})
+		}
 		add("channel-of-list", st, []string{"bad_channel"}, func(c *Schema, d *Def) bool {
 			if msgName == "" {
 				return false
